@@ -11,7 +11,7 @@ clauses
                             (Basic, undamped XL-BOMD: 3N-{0,3,6}; Langevin, damped XL-BOMD: 3N) equals Temp to 1e-6
   n_dof-rule                live md.n_dof equals that documented count
   n_dof-positive            that count is > 0 (else T is undefined)
-  P0 / L0                   drawn velocities: |P| <= f sum m|v|, |L| <= f sum m|r||v| at step 0, f = 1e-12 + 4 eps_mach cond(I)
+  P0 / L0                   drawn velocities: |P| <= f sum m|v|, |L| <= f sum m|r||v| at step 0, f = 1e-12 + 16 eps_mach cond(I) at the geometry of the row
                             (momenta cannot be removed more accurately than the conditioning of the inertia tensor allows)
   padding-velocity          padding rows of molecule.velocities exactly zero after initialize and after the run
   padding-coordinates       padding rows of molecule.coordinates bitwise equal to the input after initialize and after the run
@@ -41,7 +41,7 @@ ASSUMPTIONS = ["float64 CPU, one torch thread, runs of one case execute in one p
 REQUIRED_MONITORS = ["md_runs", "draws_checked", "zero_com_calls", "zero_com_nontrivial", "digest_pairs", "supplied_checked",
                      "padding_rows_checked", "linear_molecules"]
 CASE_TIMEOUT = 600.0
-BUDGET_S = {"quick": 200, "thorough": 1500}
+BUDGET_S = {"quick": 230, "thorough": 1600}
 
 EPS = 1e-8
 LINEAR = {"CO2", "HCN", "H2", "N2", "CO", "C2H2", "HF", "HCl", "LiH", "BeH2"}
@@ -55,21 +55,21 @@ def gen_cases(tier, seed):
     rcs = [None, ["linear", 1], ["angular", 1], ["linear", 2], ["angular", 3]]
     engines = ["basic", "langevin", "xl", "basic", "xl-damped", "basic"]
     variants = ["zero-momentum", "net-linear", "net-angular", "both", "all-zero"]
-    n_draw, n_sup = (36, 24) if tier == "quick" else (520, 280)
+    n_draw, n_sup = (30, 20) if tier == "quick" else (420, 240)
     cases = []
     for i in range(n_draw):
         sysm = systems[i % len(systems)] if i < 2 * len(systems) else systems[int(g.integers(0, len(systems)))]
         cases.append({"kind": "draw", "mols": sysm, "engine": engines[(i // 2) % len(engines)] if i < 24 else engines[int(g.integers(0, len(engines)))],
                       "method": ["AM1", "PM3", "MNDO"][i % 3], "Temp": temps[(i + i // 4) % 4], "remove_com": rcs[(i + i // 5) % 5],
                       "seed": int(g.integers(0, 10 ** 6)), "preconsume": int(g.integers(1, 2000)),
-                      "steps": 3, "dt": [0.5, 0.2, 1.0][i % 3], "geom_seed": int(g.integers(0, 2 ** 31))})
+                      "steps": 2 if tier == "quick" else 3, "dt": [0.5, 0.2, 1.0][i % 3], "geom_seed": int(g.integers(0, 2 ** 31))})
     for i in range(n_sup):
         sysm = systems[(3 * i + 1) % len(systems)]
         eng = ["basic", "basic", "langevin", "xl", "basic", "xl-damped"][i % 6]
         cases.append({"kind": "supplied", "mols": sysm, "engine": eng, "method": ["AM1", "PM3"][i % 2], "Temp": [300.0, 0.0, 50.0][i % 3],
                       "field_T": [300.0, 1000.0][(i // 3) % 2], "variant": variants[i % 5],
                       "remove_com": [None, None, ["linear", 1], ["angular", 1], ["linear", 2]][(i // 5) % 5],
-                      "seeds": [int(g.integers(0, 10 ** 6)), int(g.integers(0, 10 ** 6))], "steps": 3, "dt": [0.5, 0.2][i % 2],
+                      "seeds": [int(g.integers(0, 10 ** 6)), int(g.integers(0, 10 ** 6))], "steps": 2 if tier == "quick" else 3, "dt": [0.5, 0.2][i % 2],
                       "geom_seed": int(g.integers(0, 2 ** 31))})
     return cases
 
@@ -107,7 +107,7 @@ def _system(case):
 
 
 def _rigid_factor(m, X):
-    """relative accuracy to which net momenta can be removed in float64: 1e-12 + 4*eps_machine*cond(I), cond over the
+    """relative accuracy to which net momenta can be removed in float64: 1e-12 + 16*eps_machine*cond(I), cond over the
     inertia eigenvalues the repository's pseudo-inverse actually inverts (> 1e-10 amu A^2).  A slightly bent CO2 has
     cond ~ 7e5, and an independent numpy removal leaves |L| ~ 1e-11 * scale there as well."""
     from vlib import md
@@ -115,7 +115,7 @@ def _rigid_factor(m, X):
     w = np.linalg.eigvalsh(md.inertia(m, X - md.com(m, X)))
     w = w[w > 1e-10]
     cond = float(w.max() / w.min()) if len(w) else 1.0
-    return 1e-12 + 4.0 * 2.220446049250313e-16 * cond
+    return 1e-12 + 16.0 * 2.220446049250313e-16 * cond
 
 
 def _ndof_mech(case, Zs):
@@ -339,9 +339,10 @@ def _step0(acc, case, Zs, rec, tag, drawn):
                 ps, ls = md.momentum_scales(mm, h["coordinates"][s_], h["velocities"][s_])
                 if ps <= 0:
                     continue
-                acc.upd("periodic-P", np.abs(P).max(), fac * ps, {"mol": k, "step": s_, "run": tag})
+                fs = _rigid_factor(mm, h["coordinates"][s_])
+                acc.upd("periodic-P", np.abs(P).max(), fs * ps, {"mol": k, "step": s_, "run": tag, "rel_tolerance": fs})
                 if str(rc[0]).lower() == "angular":
-                    acc.upd("periodic-L", np.abs(L).max(), fac * ls, {"mol": k, "step": s_, "run": tag})
+                    acc.upd("periodic-L", np.abs(L).max(), fs * ls, {"mol": k, "step": s_, "run": tag, "rel_tolerance": fs})
     return ok
 
 
